@@ -479,7 +479,31 @@ func isValidVoteproofsFromLocalFS(networkID base.NetworkID, vps [2]base.Voteproo
 		}
 	}
 
-	return base.IsValidVoteproofsWithManifest(vps, m)
+	if err := base.IsValidVoteproofsWithManifest(vps, m); err != nil {
+		return err
+	}
+
+	return isValidACCEPTVoteproofWithManifest(vps[1], m)
+}
+
+// isValidACCEPTVoteproofWithManifest checks that the accept voteproof of the
+// block has the majority for the manifest.
+func isValidACCEPTVoteproofWithManifest(vp base.Voteproof, m base.Manifest) error {
+	e := util.ErrInvalid.Errorf("accept voteproof with manifest")
+
+	avp, err := util.AssertInterfaceValue[base.ACCEPTVoteproof](vp)
+	if err != nil {
+		return e.Wrap(err)
+	}
+
+	switch majority := avp.BallotMajority(); {
+	case majority == nil:
+		return e.Errorf("empty majority")
+	case !majority.NewBlock().Equal(m.Hash()):
+		return e.Errorf("new block of majority does not match with manifest")
+	}
+
+	return nil
 }
 
 func IsValidBlocksFromStorage(
